@@ -402,6 +402,34 @@ def build(interp):
         return out[0] if len(out) == 1 else tuple(out)
     M[np.unique] = np_unique
 
+    # transcendental / rounding functions on symbolic reals: uninterpreted results with the order facts they satisfy
+    def np_log(x, *a, **k):
+        if isinstance(x, Sym):
+            r = sym.opaque_real('log')
+            # the only facts used: log vanishes only at 1, and has the sign of (x - 1)
+            sym.ctx().assume(sym.And(sym.Implies(x > 1, r > 0), sym.Implies(sym.And(x > 0, x < 1), r < 0), sym.Implies(x == 1, r == 0)))
+            return r
+        return np.log(x, *a, **k)
+    M[np.log] = np_log
+
+    def np_ceil(x, *a, **k):
+        if isinstance(x, Sym):
+            c = sym.ctx()
+            r = c.int(c.fresh_name('ceil'))
+            c.assume(sym.And(r >= x, r - 1 < x))
+            return r * 1.0 if False else r
+        return np.ceil(x, *a, **k)
+    M[np.ceil] = np_ceil
+
+    def np_floor(x, *a, **k):
+        if isinstance(x, Sym):
+            c = sym.ctx()
+            r = c.int(c.fresh_name('floor'))
+            c.assume(sym.And(r <= x, r + 1 > x))
+            return r
+        return np.floor(x, *a, **k)
+    M[np.floor] = np_floor
+
     return M
 
 
